@@ -724,6 +724,54 @@ fn stats() -> i32 {
             if fv2.iter().map(|x| x.1).sum::<u64>() != 1 || fk2.iter().map(|x| x.1).sum::<u64>() != 1 { return Err("one delete: free counts".into()); }
             if fv2.iter().find(|x| x.1 == 1).unwrap().0 != 64 { return Err(format!("freed 50-byte value: counted in class {:?}", fv2.iter().find(|x| x.1 == 1))); }
         }
+        // statistics after key records were rewritten in place (chain relinks by delete, value moves by put): an 8-bucket table, so every
+        // bucket is a chain; key lengths around the class boundaries; after every step the four histograms and the free counts are
+        // compared with the model, and live slots + free slots + header must add up to the length of each data file
+        for order in 0..3usize {
+            let _ = std::fs::remove_dir_all(&dir);
+            let params = FileDbParams { buckets_size: HashBucketsParam::BucketsSize(8), ..Default::default() };
+            let db = abyssiniandb::open_file(&dir).unwrap();
+            let mut m = db.db_map_string_with_params("r", params).unwrap();
+            let mut model: std::collections::BTreeMap<String, usize> = Default::default();
+            let keys: Vec<String> = (0..36usize).map(|i| { let l = [11usize, 19, 27, 12, 3, 20, 10, 28, 43][i % 9]; format!("{:0>w$}", i, w = l) }).collect();
+            let check = |m: &mut abyssiniandb::filedb::FileDbMap<abyssiniandb::DbString>, model: &std::collections::BTreeMap<String, usize>, what: &str| -> Result<(), String> {
+                let mut wk: std::collections::BTreeMap<u64, u64> = Default::default(); let mut wv: std::collections::BTreeMap<u64, u64> = Default::default();
+                for (k, v) in model.iter() { *wk.entry(k.len() as u64).or_default() += 1; if *v > 0 { *wv.entry(*v as u64).or_default() += 1; } }
+                let gk = parse_pairs(&m.key_length_stats().unwrap().to_string()); let gv = parse_pairs(&m.value_length_stats().unwrap().to_string());
+                if gk != wk.into_iter().collect::<Vec<_>>() { return Err(format!("order {order}, {what}: key_length_stats {gk:?}")); }
+                if gv != wv.into_iter().collect::<Vec<_>>() { return Err(format!("order {order}, {what}: value_length_stats {gv:?}")); }
+                let ks = parse_pairs(&m.key_piece_size_stats().unwrap().to_string()); let vs = parse_pairs(&m.value_piece_size_stats().unwrap().to_string());
+                if ks.iter().map(|x| x.1).sum::<u64>() != model.len() as u64 { return Err(format!("order {order}, {what}: key_piece_size_stats counts {ks:?} for {} live keys", model.len())); }
+                let nv = model.values().filter(|v| **v > 0).count() as u64;
+                if vs.iter().map(|x| x.1).sum::<u64>() != nv { return Err(format!("order {order}, {what}: value_piece_size_stats counts {vs:?} for {nv} live non-empty values")); }
+                let fk = m.count_of_free_key_piece().unwrap(); let fv = m.count_of_free_value_piece().unwrap();
+                m.flush().unwrap();
+                // no slot of 1024 bytes or more in this history, so a free slot is exactly as large as its class (the history stores no empty value: its slot is not counted by the histograms)
+                let n_empty_v = model.values().filter(|v| **v == 0).count() as u64;
+                let klen = std::fs::metadata(dir.join("r.key")).unwrap().len(); let vlen = std::fs::metadata(dir.join("r.val")).unwrap().len();
+                let ksum = 192 + ks.iter().map(|x| x.0 * x.1).sum::<u64>() + fk.iter().map(|x| x.0 as u64 * x.1).sum::<u64>();
+                let vsum = 192 + vs.iter().map(|x| x.0 * x.1).sum::<u64>() + fv.iter().map(|x| x.0 as u64 * x.1).sum::<u64>() + 16 * n_empty_v;
+                if ksum != klen { return Err(format!("order {order}, {what}: key file is {klen} bytes, header + live slots {ks:?} + free slots {:?} = {ksum}", fk.iter().filter(|x| x.1 > 0).collect::<Vec<_>>())); }
+                if vsum != vlen { return Err(format!("order {order}, {what}: value file is {vlen} bytes, header + live slots {vs:?} + free slots {:?} + {n_empty_v} empty values = {vsum}", fv.iter().filter(|x| x.1 > 0).collect::<Vec<_>>())); }
+                Ok(())
+            };
+            for (i, k) in keys.iter().enumerate() { let vl = 1 + (i * 37) % 300; m.put(k, &vec![i as u8; vl]).unwrap(); model.insert(k.clone(), vl); }
+            check(&mut m, &model, "after 36 puts")?;
+            // deletes: oldest first (chain tails: the predecessor's link shrinks), newest first (heads), or every third
+            let del: Vec<usize> = match order { 0 => (0..24).collect(), 1 => (12..36).rev().collect(), _ => (0..36).filter(|i| i % 3 != 1).collect() };
+            for (n, i) in del.iter().enumerate() {
+                m.delete(&keys[*i]).unwrap(); model.remove(&keys[*i]);
+                if n % 4 == 3 || n + 1 == del.len() { check(&mut m, &model, &format!("after {} deletes", n + 1))?; }
+            }
+            // overwrites that move the value (growing, then shrinking into recycled slots) rewrite the key record in place
+            let live: Vec<String> = model.keys().cloned().collect();
+            for (n, k) in live.iter().enumerate() { let vl = 320 + n * 29; m.put(k, &vec![1u8; vl]).unwrap(); model.insert(k.clone(), vl); }
+            check(&mut m, &model, "after growing overwrites")?;
+            for (n, k) in live.iter().enumerate() { let vl = 1 + (n * 7) % 60; m.put(k, &vec![2u8; vl]).unwrap(); model.insert(k.clone(), vl); }
+            check(&mut m, &model, "after shrinking overwrites")?;
+            for (i, k) in keys.iter().enumerate().take(20) { let vl = 5 + i * 11; m.put(k, &vec![3u8; vl]).unwrap(); model.insert(k.clone(), vl); }
+            check(&mut m, &model, "after re-inserting into recycled slots")?;
+        }
         Ok(())
     }));
     let _ = std::fs::remove_dir_all(&dir);
@@ -866,7 +914,7 @@ fn keys() -> i32 {
         let alpha = [0x00u8, 0x61, 0x62, 0x80, 0xc3, 0xff];
         let mut ks: Vec<Vec<u8>> = vec![vec![]];
         for a in alpha { ks.push(vec![a]); for b in alpha { ks.push(vec![a, b]); } }
-        for a in [0x61u8, 0x80, 0xff] { for n in [3usize, 7, 8, 9, 15, 16, 17, 40] { ks.push(vec![a; n]); let mut v = vec![a; n]; v[n - 1] = 0x62; ks.push(v); } }
+        for a in [0x61u8, 0x80, 0xff] { for n in [3usize, 7, 8, 9, 15, 16, 17, 40, 880, 900, 1024, 2000, 5000] { ks.push(vec![a; n]); let mut v = vec![a; n]; v[n - 1] = 0x62; ks.push(v); } }
         let db = abyssiniandb::open_file(&dir).unwrap();
         {
             let mut m = db.db_map_string_with_params("s", params.clone()).unwrap();
